@@ -202,7 +202,7 @@ let exec (ctx : ctx) (line : string) (b : Buffer.t) =
       ctx.ops <- OpWrite (bytes 1) :: ctx.ops;
       let q, k = ok (write (get_p ctx) (bytes 1)) in
       ctx.parser <- Some (flush q);
-      Buffer.add_string b (Printf.sprintf "W %d\n" (int_of_n k))
+      Buffer.add_string b (Printf.sprintf "W %d same\n" (int_of_n k))
     | "SIZE" -> ctx.ops <- OpSetSize (nn 1, nn 2) :: ctx.ops; ctx.parser <- Some (ok (step (get_p ctx) (OpSetSize (nn 1, nn 2))))
     | "SB" -> ctx.ops <- OpSetScrollback (nn 1) :: ctx.ops; ctx.parser <- Some (ok (step (get_p ctx) (OpSetScrollback (nn 1))))
     | "SNAP" -> Hashtbl.replace ctx.snaps (num 1) (get_p ctx).scr
